@@ -48,6 +48,11 @@ CHECKS = {
         text='For power-of-two factors TLC requires identical indices, durations, ratios (bit-identical) and labels and voltage features / band_amp scaled by exactly the factor, and a bit-identical table when fs and both band edges are multiplied by c in {1/8,1/4,1/2,2,4}; the recorded environment outputs (sign pattern, mask, filter length) must coincide, which makes the neurodsp covariance assumption visible.',
         design_ref='6/C10',
         note='scale factors restricted to powers of two as the property states; pairs sampled from the generated corpus.'),
+    'C17': dict(
+        technique=TECH + 'exhaustive small-scope model checking (MC_Phase) over every valid cyclepoint placement with the real extrema_interpolated_phase judged on each, plus trace validation (Trace_Phase) on cyclepoints of generated signals',
+        text='Phase model in exact quarter-turn rationals (anchors with extrema overriding midpoints, linear advance, wrap only at troughs, NaN outside the span); TLC proves the four statements of C17 for the model on every placement up to the bound and evaluates the same four statements on order-isomorphic rank codes of the real function\'s output for every placement and for recorded calls on generated cyclepoints (any boundary, first_extrema, with/without midpoints).',
+        design_ref='6/C17',
+        note='exhaustive to 10 (thorough 13) samples; the implementation is judged by the property\'s statements, not by equality with the model\'s linear interpolation (only noted).'),
     'C08': dict(
         technique=TECH + 'exhaustive small-scope model checking with indexed conformance (IX) of the real function, plus TLC trace validation of recorded calls on long arrays',
         text='TLC enumerates every boolean array up to length 11 (thorough 15) x every min_n_cycles, runs a scanning state machine, '
